@@ -87,12 +87,23 @@ def gen(rng, tier):
         spec["unservable"] = m["tasks"][idx]["id"]
         spec["how"] = how
         cfg["max_time"] = rng.choice([20, 40, 80])
+    if fam == "feasible" and rng.random() < 0.3:
+        # the completion clause must also hold for a run that follows an interrupted / earlier run on the same object
+        C.maybe_history(rng, spec, 1.0, reload_prob=0.2)
+        # time may continue from the first call: a generous limit costs no detection (a deadlock never terminates)
+        cfg["max_time"] = 2 * cfg["max_time"] + 20
     return spec
+
+
+def extra_candidates(spec):
+    return C.history_candidates(spec)
 
 
 def check_always(res, tr, prefix="C05"):
     rec, out, p = tr.rec, tr.out, tr.project
     mt = tr.cfg.get("max_time", 40)
+    if getattr(tr, "history", None) is not None and tr.history.get("k") is None and not tr.history["log"]:
+        pass  # time continues after a complete first run: the limit clauses below still refer to this call's max_time
     if not out.ok and not out.injected:
         res.add("returns", "%s.exception.%s@%s" % (prefix, out.exc_type, out.where),
                 "simulate() raised %s(%s) in %s" % (out.exc_type, out.msg, out.where), p.time)
